@@ -149,6 +149,18 @@ class Driver:
         self.start()
 
     def req(self, line, timeout=30.0):
+        """One request/reply.  A missing reply within TIMEOUT is retried ONCE in a fresh driver with four times
+        the allowance when the request is self-contained (run / cmpmat / handle-free parse): a loaded machine
+        must not produce a 'hang'.  Only the second miss raises DriverTimeout."""
+        try:
+            return self._req(line, timeout)
+        except DriverTimeout:
+            op = line.split(" ", 1)[0]
+            if op in ("run", "cmpmat", "voc", "stats") or (op == "parse" and " id=" not in line):
+                return self._req(line, timeout * 4)
+            raise
+
+    def _req(self, line, timeout=30.0):
         if self.p is None:
             self.start()
         try:
